@@ -23,6 +23,10 @@ ASSUMPTIONS = [
 ]
 
 
+APIS = ("function", "method", "method_on_region_with_start", "function_on_region_with_start", "raw_file", "raw_file_lazy",
+        "wav_file", "wav_file_lazy", "used_buffer_source", "used_reader")
+
+
 def run_case(ctx, case, api=None):
     built = AC.build_audio(case)
     if built is None:
@@ -30,7 +34,7 @@ def run_case(ctx, case, api=None):
         return
     data, verdicts = built
     expected = AC.expected_regions(case, data, verdicts)
-    api = api or ("function", "method", "method_on_region_with_start", "function_on_region_with_start")[(case["pcm_seed"] >> 4) % 4]
+    api = api or APIS[(case["pcm_seed"] >> 4) % len(APIS)]
     kw = AC.split_kwargs(case, long_names=bool(case["pcm_seed"] & 2))
     try:
         if api == "function":
@@ -38,6 +42,52 @@ def run_case(ctx, case, api=None):
         elif api == "method":
             reg = AudioRegion(data, case["rate"], case["width"], case["channels"])
             regions = list(reg.split(**kw))
+        elif api in ("raw_file", "raw_file_lazy", "wav_file", "wav_file_lazy"):
+            import os
+            import tempfile
+            import wave
+
+            fd, path = tempfile.mkstemp(prefix="vf-c05-", suffix=".raw" if api.startswith("raw") else ".wav")
+            os.close(fd)
+            try:
+                if api.startswith("raw"):
+                    with open(path, "wb") as fp:
+                        fp.write(data)
+                    regions = list(auditok.split(path, large_file=api.endswith("lazy"), **kw, **AC.audio_kwargs(case)))
+                else:
+                    with wave.open(path, "wb") as fp:
+                        fp.setframerate(case["rate"])
+                        fp.setsampwidth(case["width"])
+                        fp.setnchannels(case["channels"])
+                        fp.writeframes(data)
+                    regions = list(auditok.split(path, large_file=api.endswith("lazy"), **kw))
+            finally:
+                os.unlink(path)
+        elif api in ("used_buffer_source", "used_reader"):
+            # a multi-step history: the source was opened, partly read and closed before being handed to split();
+            # times still count from the beginning of the input
+            from auditok import AudioReader
+            from auditok.io import BufferAudioSource
+
+            n = max(1, (case["pcm_seed"] % 5) * case["block"] // 2)
+            if api == "used_buffer_source":
+                src = BufferAudioSource(data, case["rate"], case["width"], case["channels"])
+                src.open()
+                src.read(n)
+                src.close()
+                regions = list(auditok.split(src, **kw))
+            else:
+                kw2 = {k: v for k, v in kw.items() if k not in ("analysis_window", "aw")}
+                rd = AudioReader(data, block_dur=case["block"] / case["rate"], **AC.audio_kwargs(case))
+                if case["w"] != case["block"] / case["rate"]:
+                    api = "function"
+                    regions = list(auditok.split(data, **kw, **AC.audio_kwargs(case)))
+                else:
+                    rd.open()
+                    for _ in range(case["pcm_seed"] % 3 + 1):
+                        rd.read()
+                    rd.close()
+                    regions = list(auditok.split(rd, **kw2))
         else:
             # the input is itself a region that carries a start time (as regions yielded by an earlier split() do):
             # times of the new regions still count from the beginning of THIS input
@@ -110,6 +160,6 @@ def replay(ctx, case):
 def inconclusive(merged, tier):
     c = merged["counters"]
     return [f"monitor never observed {k}" for k in
-            ("regions_observed", "regions_expected", "api_function", "api_method", "api_method_on_region_with_start", "api_function_on_region_with_start", "cases_threshold_zero", "nested_splits", "width_1", "width_2", "width_4",
+            ("regions_observed", "regions_expected", "api_function", "api_method", "api_method_on_region_with_start", "api_function_on_region_with_start", "api_raw_file_lazy", "api_wav_file_lazy", "api_used_buffer_source", "api_used_reader", "cases_threshold_zero", "nested_splits", "width_1", "width_2", "width_4",
              "channels_1", "channels_2", "channels_3", "cases_with_partial_last_window", "regions_ending_in_partial_window",
              "cases_nonintegral_window") if c.get(k, 0) == 0]
